@@ -74,6 +74,66 @@ theorem accepted_area_fits (y u v : Plane) (cfg : Cfg) (ts : Nat) (g : Yuv) (hg 
     g.y.cfg.width * g.y.cfg.height ≤ USIZE_MAX :=
   area_fits _ (inv_of_new y u v cfg ts g hg).cy
 
+/-- no index computation of the decoder wraps either: for every visible position of an accepted frame the four index
+expressions `ycbcr_to_ypbpr` evaluates in `usize` - `y*w + x` into the output, `y*stride + x` into the luma slice and
+`(y >> ss_y)*stride + (x >> ss_x)` into the two chroma slices - are at most `usize::MAX` (their sub-products are smaller
+still), given only that the three buffers exist in memory (their lengths fit a `usize`). Together with
+`accepted_area_fits` this makes the `Nat` arithmetic of the model agree with the 64-bit arithmetic of the code on every
+accepted frame. -/
+theorem decode_indices_fit (g : Yuv) (hi : InvYuv g)
+    (sy : g.y.data.size ≤ USIZE_MAX) (su : g.u.data.size ≤ USIZE_MAX) (sv : g.v.data.size ≤ USIZE_MAX)
+    (x yy : Nat) (hx : x < g.y.cfg.width) (hy : yy < g.y.cfg.height) :
+    yy * g.y.cfg.width + x ≤ USIZE_MAX ∧ yy * g.y.cfg.stride + x ≤ USIZE_MAX ∧
+    (yy >>> g.cfg.ssy) * g.u.cfg.stride + (x >>> g.cfg.ssx) ≤ USIZE_MAX ∧
+    (yy >>> g.cfg.ssy) * g.v.cfg.stride + (x >>> g.cfg.ssx) ≤ USIZE_MAX := by
+  have hcx := shr_lt _ x _ hi.wdiv hx
+  have hcy := shr_lt _ yy _ hi.hdiv hy
+  have iy := covers_index _ hi.cy x yy hx hy
+  have iu := covers_index _ hi.cu (x >>> g.cfg.ssx) (yy >>> g.cfg.ssy) (by rw [hi.uw]; exact hcx) (by rw [hi.uh]; exact hcy)
+  have iv := covers_index _ hi.cv (x >>> g.cfg.ssx) (yy >>> g.cfg.ssy) (by rw [hi.vw]; exact hcx) (by rw [hi.vh]; exact hcy)
+  have ha := area_fits _ hi.cy
+  unfold Plane.index at iy iu iv
+  have h1 : yy * g.y.cfg.stride ≤ (yy + g.y.cfg.yorigin) * g.y.cfg.stride := Nat.mul_le_mul_right _ (by omega)
+  have h2 : (yy >>> g.cfg.ssy) * g.u.cfg.stride ≤ ((yy >>> g.cfg.ssy) + g.u.cfg.yorigin) * g.u.cfg.stride := Nat.mul_le_mul_right _ (by omega)
+  have h3 : (yy >>> g.cfg.ssy) * g.v.cfg.stride ≤ ((yy >>> g.cfg.ssy) + g.v.cfg.yorigin) * g.v.cfg.stride := Nat.mul_le_mul_right _ (by omega)
+  have h4 : yy * g.y.cfg.width + x < g.y.cfg.width * g.y.cfg.height := by
+    have : (yy + 1) * g.y.cfg.width ≤ g.y.cfg.height * g.y.cfg.width := Nat.mul_le_mul_right _ (by omega)
+    rw [Nat.add_mul, Nat.one_mul, Nat.mul_comm g.y.cfg.height] at this
+    omega
+  refine ⟨by omega, by omega, by omega, by omega⟩
+
+/-- the same for the encoder (`ypbpr_to_ycbcr`): with planes that exist in memory (the `fits` hypotheses of `encode_safe`),
+the index expressions `y*w + x` (input), `y*stride + x` (luma plane) and `(y >> ss_y)*stride + (x >> ss_x)` (chroma planes)
+are at most `usize::MAX` for every pixel -/
+theorem encode_indices_fit (inp : Array V3) (w h : Nat) (cfg : Cfg) (ts : Nat) (hw : 0 < w) (hh : 0 < h) (hin : inp.size = w * h)
+    (hinfit : inp.size ≤ USIZE_MAX) (wdiv : w % 2 ^ cfg.ssx = 0) (hdiv : h % 2 ^ cfg.ssy = 0)
+    (fits : (Plane.new (w >>> cfg.ssx) (h >>> cfg.ssy) cfg.ssx cfg.ssy 0 0 ts).data.size < USIZE_MAX)
+    (fitsY : (Plane.new w h 0 0 0 0 ts).data.size ≤ USIZE_MAX)
+    (x yy : Nat) (hx : x < w) (hy : yy < h) :
+    yy * w + x ≤ USIZE_MAX ∧ yy * (Plane.new w h 0 0 0 0 ts).cfg.stride + x ≤ USIZE_MAX ∧
+    (yy >>> cfg.ssy) * (Plane.new (w >>> cfg.ssx) (h >>> cfg.ssy) cfg.ssx cfg.ssy 0 0 ts).cfg.stride + (x >>> cfg.ssx) ≤ USIZE_MAX := by
+  have cw := shr_pos w cfg.ssx hw wdiv
+  have ch := shr_pos h cfg.ssy hh hdiv
+  have hcx := shr_lt _ x _ wdiv hx
+  have hcy := shr_lt _ yy _ hdiv hy
+  have cY := FrameP.planeNew_covers w h 0 0 0 0 ts (Plane.new w h 0 0 0 0 ts).data hw hh rfl fitsY
+  have cU := FrameP.planeNew_covers (w >>> cfg.ssx) (h >>> cfg.ssy) cfg.ssx cfg.ssy 0 0 ts (Plane.new (w >>> cfg.ssx) (h >>> cfg.ssy) cfg.ssx cfg.ssy 0 0 ts).data cw ch rfl (Nat.le_of_lt fits)
+  have iy := covers_index _ cY x yy hx hy
+  have iu := covers_index _ cU (x >>> cfg.ssx) (yy >>> cfg.ssy) hcx hcy
+  unfold Plane.index at iy iu
+  have e1 : ({ (Plane.new w h 0 0 0 0 ts) with data := (Plane.new w h 0 0 0 0 ts).data } : Plane) = Plane.new w h 0 0 0 0 ts := rfl
+  have e2 : ({ (Plane.new (w >>> cfg.ssx) (h >>> cfg.ssy) cfg.ssx cfg.ssy 0 0 ts) with data := (Plane.new (w >>> cfg.ssx) (h >>> cfg.ssy) cfg.ssx cfg.ssy 0 0 ts).data } : Plane) = Plane.new (w >>> cfg.ssx) (h >>> cfg.ssy) cfg.ssx cfg.ssy 0 0 ts := rfl
+  rw [e1] at iy; rw [e2] at iu
+  generalize Plane.new w h 0 0 0 0 ts = P at *
+  generalize Plane.new (w >>> cfg.ssx) (h >>> cfg.ssy) cfg.ssx cfg.ssy 0 0 ts = Q at *
+  have h1 : yy * P.cfg.stride ≤ (yy + P.cfg.yorigin) * P.cfg.stride := Nat.mul_le_mul_right _ (by omega)
+  have h2 : (yy >>> cfg.ssy) * Q.cfg.stride ≤ ((yy >>> cfg.ssy) + Q.cfg.yorigin) * Q.cfg.stride := Nat.mul_le_mul_right _ (by omega)
+  have h4 : yy * w + x < w * h := by
+    have : (yy + 1) * w ≤ h * w := Nat.mul_le_mul_right _ (by omega)
+    rw [Nat.add_mul, Nat.one_mul, Nat.mul_comm h] at this
+    omega
+  refine ⟨by omega, by omega, by omega⟩
+
 /-- ... and a frame whose visible area does not fit a `usize` is rejected, whatever its stride and buffer -/
 theorem area_overflow_rejected (y u v : Plane) (cfg : Cfg) (ts : Nat) (h : USIZE_MAX < y.cfg.width * y.cfg.height) :
     ∃ e, Yuv.new y u v cfg ts = .ok (.error e) := by
